@@ -157,6 +157,39 @@ static void reinit_scenario(const char *sizes)
   mc_eventf("reinit" + obs);
 }
 
+// re-initialisation while scheduled functions are still pending: they must still run exactly once
+static void reinit_pending_scenario(const char *sizes)
+{
+  Shared *sh = new Shared();
+  for (int i = 0; i < 4; i++)
+    sh->runs[i].store(0);
+  sem_init(&sh->done, 0, 0);
+  int n = 0;
+  for (int i = 0; sizes[i] && i < 3; i++) {
+#if defined(RKCOMMON_TASKING_INTERNAL)
+    initTaskingSystem(sizes[i] - '0');
+#endif
+    // not waited for before the next initialisation
+    std::shared_ptr<std::vector<int>> heap = std::make_shared<std::vector<int>>(4, i + 1);
+    schedule([sh, heap, i]() {
+      MC_CHECK((*heap)[3] == i + 1, "schedule|closure state corrupted", "captured heap state differs");
+      sh->runs[i].fetch_add(1);
+      sem_post(&sh->done);
+    });
+    n++;
+  }
+  for (int i = 0; i < n; i++)
+    sem_wait(&sh->done);
+  for (int k = 0; k < 3; k++)
+    mc_yield();
+  std::string obs;
+  for (int i = 0; i < n; i++) {
+    obs += std::to_string(sh->runs[i].load());
+    MC_CHECK(sh->runs[i].load() == 1, "schedule|closure pending at a re-initialisation not executed exactly once", obs.c_str());
+  }
+  mc_eventf("pending" + obs);
+}
+
 // ---------------------------------------------------------------- async()
 template <typename T>
 static void async_scenario(int k)
@@ -247,6 +280,8 @@ static void entry()
     schedule_scenario(atoi(param.c_str()));
   else if (kind == "reinit")
     reinit_scenario(param.c_str());
+  else if (kind == "repend")
+    reinit_pending_scenario(param.c_str());
   else if (kind == "async") {
     int k = atoi(param.c_str());
     if (type == "int")
@@ -274,6 +309,8 @@ struct Reg
       add("schedule_x_" + std::to_string(k), k == 3 ? 2 : 3, k == 3 ? 3 : 4);
     for (const char *seq : {"21", "12", "212", "121", "22", "11"})
       add(std::string("reinit_x_") + seq, 2, 3);
+    for (const char *seq : {"22", "21", "12", "222"})
+      add(std::string("repend_x_") + seq, 2, 3);
     const char *types[] = {"int", "str", "trk"};
     for (const char *ty : types)
       for (int k = 1; k <= 2; k++)
